@@ -51,7 +51,7 @@ TextVals == {S("ab"), S(""), S("a\"b c"), Sy("sym"), Nil, IntV(-15), L(<<IntV(1)
            \cup (IF Level = 1 THEN {} ELSE {S("Hello World"), Ch("a"), Big("9223372036854775808", FALSE), L(<<S("a"), L(<<S("b"), L(<<IntV(2)>>)>>)>>)})
 
 \* ---- integer directives --------------------------------------------------------------------------------------------
-Mincols == IF Level = 1 THEN {NoP, IntP(9), VInt(12)} ELSE {NoP, IntP(1), IntP(9), IntP(24), VInt(12), VNil, Sharp}
+Mincols == IF Level = 1 THEN {NoP, IntP(9), VInt(12), VNil} ELSE {NoP, IntP(1), IntP(9), IntP(24), VInt(12), VNil, Sharp}
 Padchars == IF Level = 1 THEN {NoP, ChrP("*")} ELSE {NoP, ChrP("0"), VChr("_")}
 Commas == IF Level = 1 THEN {NoP, ChrP("_")} ELSE {NoP, ChrP(" "), VChr(".")}
 Intervals == IF Level = 1 THEN {NoP, IntP(2), Sharp} ELSE {NoP, IntP(1), IntP(4), VInt(5), Sharp}     \* # after a v counts what is left after the v
@@ -70,7 +70,7 @@ RadixPieces ==
 \* ---- ~A ~S ----------------------------------------------------------------------------------------------------------
 AsPieces ==
   {Directive(<<m, ci, mp, pc>>, colon, at, ch, <<v>>) :
-     m \in (IF Level = 1 THEN {NoP, IntP(8), VInt(6)} ELSE {NoP, IntP(0), IntP(3), IntP(8), IntP(15), VInt(9), Sharp}),
+     m \in (IF Level = 1 THEN {NoP, IntP(8), VInt(6), VNil} ELSE {NoP, IntP(0), IntP(3), IntP(8), IntP(15), VInt(9), VNil, Sharp}),
      ci \in (IF Level = 1 THEN {NoP, IntP(3)} ELSE {NoP, IntP(1), IntP(3), IntP(5), Sharp}),
      mp \in (IF Level = 1 THEN {NoP, IntP(2), Sharp} ELSE {NoP, IntP(0), IntP(2), Sharp}),
      pc \in {NoP, ChrP(".")}, colon \in BOOLEAN, at \in BOOLEAN, ch \in {"a", "s"}, v \in TextVals}
@@ -88,7 +88,7 @@ RomanNums == IF Level = 1 THEN {1, 4, 9, 14, 40, 90, 400, 900, 1994, 2024, 3999,
 RomanPieces == {Directive(<<>>, colon, TRUE, "r", <<IntV(n)>>) : colon \in BOOLEAN, n \in RomanNums}
 
 \* ---- characters, newlines, tildes, tabulation ----------------------------------------------------------------------
-Counts == {NoP, IntP(0), IntP(1), IntP(3), VInt(2), Sharp}
+Counts == {NoP, IntP(0), IntP(1), IntP(3), VInt(2), VNil, Sharp}     \* a v whose argument is nil is an omitted parameter
 Before == {Lit(""), Lit("ab"), Lit("abcdefghij"), P("ab~%cd", <<>>), P("~a", <<S("xyz")>>), P("q~%", <<>>)}
 Join2(a, b) == P(a.txt \o b.txt, a.args \o b.args)
 Join3(a, b, c) == Join2(Join2(a, b), c)
@@ -97,7 +97,7 @@ MiscPieces ==
   \cup {Join3(b, Directive(<<n>>, FALSE, FALSE, ch, <<>>), Lit("z")) : b \in Before, n \in Counts, ch \in {"%", "&", "~", "|"}}
   \cup {Join3(b, Directive(<<cn, ci>>, FALSE, at, "t", <<>>), Lit("z")) :
           b \in Before, at \in BOOLEAN,
-          cn \in {NoP, IntP(0), IntP(1), IntP(2), IntP(5), IntP(10), IntP(12), VInt(4)},
+          cn \in {NoP, IntP(0), IntP(1), IntP(2), IntP(5), IntP(10), IntP(12), VInt(4), VNil},
           ci \in {NoP, IntP(0), IntP(1), IntP(3), IntP(4), IntP(8)}}
 
 \* ---- simple pieces for compositions and block bodies ---------------------------------------------------------------
@@ -116,6 +116,7 @@ Pre == <<"", "~a", "~a~a", "~a~a~a">>
 MovePieces ==
   {P(Pre[i] \o m \o post, Abc) : i \in 1..4, m \in MoveDirs, post \in {"~a", "~a~a", ""}}
   \cup {P(Pre[i] \o "~v" \o mod \o "*~a", SubSeq(Abc, 1, i - 1) \o <<IntV(n), Sy("x"), Sy("y"), Sy("z")>>) : i \in 1..3, mod \in {"", ":", "@"}, n \in 0..2}
+  \cup {P(Pre[i] \o "~v" \o mod \o "*~a", SubSeq(Abc, 1, i - 1) \o <<Nil, Sy("x"), Sy("y"), Sy("z")>>) : i \in 1..3, mod \in {"", ":", "@"}}
   \cup {P("~{" \o Pre[i] \o m \o "~a~}", <<L(Abc \o Abc)>>) : i \in 1..3, m \in {"~*", "~0*", "~:*", "~0:*", "~1@*", "~2*"} \ {"~1@*"}}
   \cup {P("~d item~" \o mod \o "p, " \o "~a", <<IntV(n), Sy("x")>>) : mod \in {":", ":@"}, n \in {0, 1, 2, -1, 11}}
   \cup {P("~" \o mod \o "p~a", <<v, Sy("x")>>) : mod \in {"", "@"}, v \in {IntV(0), IntV(1), IntV(2), IntV(-1), S("1"), Nil}}
@@ -126,7 +127,7 @@ Bodies == {P("~a", <<IntV(1)>>), P("~a~^, ", <<Sy("e")>>), P("<~a~a>", <<IntV(1)
 RECURSIVE Times(_, _)
 Times(xs, n) == IF n = 0 THEN <<>> ELSE xs \o Times(xs, n - 1)
 Cut(xs, c) == SubSeq(xs, 1, IF Len(xs) > c THEN Len(xs) - c ELSE 0)
-MaxPs == {NoP, IntP(0), IntP(1), IntP(2), VInt(1), Sharp}
+MaxPs == {NoP, IntP(0), IntP(1), IntP(2), VInt(1), VNil, Sharp}
 IterPieces ==
   \* ~{ : one list with the arguments of all rounds
   {LET open == Directive(<<m>>, colon, at, "{", <<>>)
@@ -142,12 +143,12 @@ Clauses == {<<Lit("zero"), Lit("one"), Lit("two")>>, <<P("~a", <<S("A")>>), Lit(
 RECURSIVE JoinClauses(_, _)
 JoinClauses(cs, dflt) == IF Len(cs) = 1 THEN cs[1].txt ELSE cs[1].txt \o (IF Len(cs) = 2 /\ dflt THEN "~:;" ELSE "~;") \o JoinClauses(Tail(cs), dflt)
 CondPieces ==
-  {LET sel == IF pick.s = "" THEN <<IntV(idx)>> ELSE pick.a
-       chosen == IF pick.s = "" THEN idx ELSE IF pick.s = "#" THEN 0 ELSE pick.n
+  {LET sel == IF pick.s = "" THEN <<IntV(idx)>> ELSE IF pick = VNil THEN <<Nil, IntV(idx)>> ELSE pick.a
+       chosen == IF pick.s = "" \/ pick = VNil THEN idx ELSE IF pick.s = "#" THEN 0 ELSE pick.n
        used == IF chosen >= 0 /\ chosen < Len(cs) - (IF dflt /\ Len(cs) > 1 THEN 1 ELSE 0) THEN cs[chosen + 1].args
                ELSE IF dflt /\ Len(cs) > 1 THEN cs[Len(cs)].args ELSE <<>>
    IN P("~" \o pick.s \o "[" \o JoinClauses(cs, dflt) \o "~]", sel \o used) :
-     cs \in Clauses, dflt \in BOOLEAN, idx \in {-1, 0, 1, 2, 3, 7}, pick \in {NoP, VInt(1), IntP(0), IntP(2), Sharp}}
+     cs \in Clauses, dflt \in BOOLEAN, idx \in {-1, 0, 1, 2, 3, 7}, pick \in {NoP, VInt(1), VNil, IntP(0), IntP(2), Sharp}}
   \cup {P("~:[" \o f.txt \o "~;" \o t.txt \o "~]", <<v>> \o (IF v.k = "nil" THEN f.args ELSE t.args)) :
           f \in {Lit("no"), P("~a", <<S("F")>>)}, t \in {Lit("yes"), P("~d", <<IntV(3)>>)}, v \in {Nil, Sy("t"), IntV(0), S("")}}
   \cup {P("~@[" \o t.txt \o "~]", IF v.k = "nil" THEN <<v>> ELSE <<v>> \o t.args) : t \in {P("<~a>", <<>>), P("<~a ~a>", <<IntV(2)>>), Lit("set")}, v \in {Nil, IntV(5), S("s")}}
